@@ -59,9 +59,19 @@ def _mk(ivs, sq, st, ft):
         ivs = [(5, 4)] * K
     fs = []
     for i, (s, l) in enumerate(ivs):
+        # geom mode: the inputs carry auto-assigned looking ids x_1..x_K (and the database counter stands at K, see
+        # _db()), so a merged id that is not strictly fresh collides with a stored input
+        fid = "x_%d" % (i + 1) if MODE == "geom" else "f%d" % i
         fs.append(Feature(seqid=sq[i], source="src%d" % (i % 2), featuretype=ft[i], start=s, end=s + l,
-                          strand=st[i], frame=".", bin=0, attributes={"ID": ["f%d" % i], "n": [str(i)]}))
+                          strand=st[i], frame=".", bin=0, id=fid, attributes={"ID": [fid], "n": [str(i)]}))
     return fs
+
+
+def _db():
+    db = hx.bare_db()
+    if MODE == "geom":
+        db._autoincrements["x"] = K
+    return db
 
 
 def _snapshot(fs):
@@ -99,7 +109,7 @@ def _check(ivs, sq, st, ft, thr):
     hx.tick()
     fs = _mk(ivs, sq, st, ft)
     before = _snapshot(fs)
-    db = hx.bare_db()
+    db = _db()
     crit = CRITERIA[CRIT][0](thr)
     out = list(db.merge(fs, merge_criteria=crit))
     runs = _expected_runs(fs, thr)
@@ -130,7 +140,7 @@ def _check(ivs, sq, st, ft, thr):
     if _snapshot(fs) != before:
         return "inputs were modified"
     # merging the same objects again gives the same result
-    out2 = list(hx.bare_db().merge(fs, merge_criteria=CRITERIA[CRIT][0](thr)))
+    out2 = list(_db().merge(fs, merge_criteria=CRITERIA[CRIT][0](thr)))
     if [(o.start, o.end, len(o.children)) for o in out2] != [(o.start, o.end, len(o.children)) for o in out]:
         return "second merge of the same objects differs"
     return None
